@@ -18,6 +18,16 @@ CHECKS = {
         technique="Coq proof by reflection over generated tables + exhaustive differential correspondence",
         design_ref="6 (C04)",
     ),
+    "C11": dict(
+        text="Coq theorems over unbounded Z arithmetic for the exact-arithmetic formatter model (output parses back to exactly k*step with the fixed "
+        "number of decimals; k*step is nearest for EVERY integer j; sign/format shape), reflection over the regenerated descriptors (every stepped "
+        "function has admissible parameters, the prescribed (decimals, step) pair and MAXVOL alone the 16.5 literal), and a theorem that a numeric "
+        "assignment to any stepped attribute yields exactly one PUT carrying that text. The real helper and every stepped attribute are swept over "
+        "grid points, tie points and their +-3 ulp neighbours and compared with the model (vm_compute).",
+        note=BASE_NOTE + "Modelled, not verified: CPython Fraction arithmetic, round(), str(int); the translator's AST reading of the to_str lambdas.",
+        technique="Coq proof (lia/nia over Z) + reflection over generated descriptors + differential sweep",
+        design_ref="6 (C11)",
+    ),
 }
 
 ALL = ["C%02d" % i for i in range(1, 21)]
